@@ -7,11 +7,7 @@ python3 - <<'PY'
 import sys, os
 sys.path.insert(0, 'tools')
 import vlib
-try:
-    import gen_rtl
-    gen_rtl.generate_all()          # regenerate coq/gen/*.v from /repo's Verilog (data for the RTL theorems)
-except ImportError:
-    pass
+vlib.design_session()               # regenerate coq/gen/*.v from /repo's Verilog (data for the RTL theorems) under the design lock
 ok, log = vlib.coq_make([], timeout=3000)   # full .vo build of everything in coq/_CoqProject
 print(log[-3000:])
 if not ok:
